@@ -293,6 +293,17 @@ for _c in make_helper:
     _c.callees = {}
     _c.lib = dict(LIB)
 CONTRACTS += make_helper
+# the k-th offset prior must stay the k-th (the kernel helper reads prior.v0_offsets[k-1] for column k): JokerPrior.__init__, contract stated in c18.py
+
+
+def _prior_order_contracts():
+    from . import c18 as _C18
+    from .chain import clone as _cl
+    return [_cl(_c, callees=_C18.CALLEES, lib=_C18.LIB, hooks=_C18.HOOKS, home="c18", only=lambda k: k == "offset-priors-kept-in-the-given-order")
+            for _c in _C18.prior_contracts() if "n_offsets=0" not in _c.cases[0]["_name"]]
+
+
+CONTRACTS += _prior_order_contracts()
 
 
 def EXTRA():
